@@ -44,6 +44,15 @@ structure SrvItem where
   handle : Nat
   deriving DecidableEq, Repr
 
+/-- an entry of `opcua.Subscription.items`: the create request kept for a later
+    recreation (its node and the client handle in its RequestedParameters), under the
+    monitored item id the server returned (0 for an item the server refused) -/
+structure Stored where
+  key : Nat
+  node : Node
+  handle : Nat
+  deriving DecidableEq, Repr
+
 structure St where
   /-- `NodeMonitor.nextClientHandle` (shared by all subscriptions of the monitor) -/
   next : Nat
@@ -55,8 +64,14 @@ structure St where
   srv : List SrvItem
   /-- the server's item id counter -/
   nextItem : Nat
+  /-- `opcua.Subscription.items` (a map: one entry per key) -/
+  stored : List Stored
 
-def St.empty : St := { next := 100, handles := fun _ => none, items := [], srv := [], nextItem := 0 }
+def St.empty : St :=
+  { next := 100, handles := fun _ => none, items := [], srv := [], nextItem := 0, stored := [] }
+
+/-- map insert -/
+def storePut (l : List Stored) (e : Stored) : List Stored := l.filter (·.key != e.key) ++ [e]
 
 def setKey (m : Nat → Option Node) (k : Nat) (v : Option Node) : Nat → Option Node :=
   fun x => if x = k then v else m x
@@ -81,9 +96,11 @@ def addResults : List (Req × Nat) → List Bool → St → St
     if ok then
       let id := s.nextItem + 1
       addResults rest oks
-        { s with items := s.items ++ [⟨id, r.node, h⟩], srv := s.srv ++ [⟨id, r.node, h⟩], nextItem := id }
+        { s with items := s.items ++ [⟨id, r.node, h⟩], srv := s.srv ++ [⟨id, r.node, h⟩], nextItem := id,
+                 stored := storePut s.stored ⟨id, r.node, h⟩ }
     else
-      addResults rest oks { s with handles := setKey s.handles h none }
+      -- `Subscription.Monitor` keeps the request of a refused item too (under id 0)
+      addResults rest oks { s with handles := setKey s.handles h none, stored := storePut s.stored ⟨0, r.node, h⟩ }
   | _, _, s => s
 
 /-- `AddMonitorItems` with the per-item results of the server (true = Good) -/
@@ -108,7 +125,27 @@ def removeLocal : List Nat → St → List Nat → St × List Nat × Bool
 /-- `RemoveMonitorItems`: the server deletes the items only when the first loop went through -/
 def remove (s : St) (ids : List Nat) : St :=
   let (s', gone, ok) := removeLocal ids s []
-  if ok then { s' with srv := s'.srv.filter fun it => !gone.contains it.id } else s'
+  if ok then { s' with srv := s'.srv.filter (fun it => !gone.contains it.id),
+                       stored := s'.stored.filter fun e => !gone.contains e.key } else s'
+
+/-- fresh monitored item ids for recreated requests -/
+def freshIds (next : Nat) : List Stored → List Stored
+  | [] => []
+  | e :: es => { e with key := next + 1 } :: freshIds (next + 1) es
+
+/-- a reconnect recreates the subscription: `recreate_monitoredItems` empties
+    `Subscription.items`, re-sends the *stored request objects* (map order `order`; each
+    still carries the client handle written when it was built) and stores the new ids; the
+    old server items are gone (new subscription).  The monitor's `handles` / `itemLookup`
+    are not touched — the monitor does not notice the recreation.  When the create fails
+    the items stay lost. -/
+def recreate (s : St) (order : List Nat) (ok : Bool) : St :=
+  let reqs := order.filterMap fun k => s.stored.find? (·.key == k)
+  if ok then
+    let fresh := freshIds s.nextItem reqs
+    { s with srv := fresh.map (fun e => ⟨e.key, e.node, e.handle⟩), stored := fresh,
+             nextItem := s.nextItem + reqs.length }
+  else { s with srv := [], stored := [] }
 
 /-- `pump`: the node a notification of server item `it` is delivered under
     (`none` = "handle not found" error message) -/
@@ -118,12 +155,14 @@ inductive Op where
   | add (reqs : List Req) (oks : List Bool)
   | addErr (reqs : List Req)
   | remove (ids : List Nat)
+  | recreate (order : List Nat) (ok : Bool)
   deriving Repr
 
 def apply (s : St) : Op → St
   | .add reqs oks => add s reqs oks
   | .addErr reqs => addErr s reqs
   | .remove ids => remove s ids
+  | .recreate order ok => recreate s order ok
 
 def runOps (s : St) : List Op → St
   | [] => s
